@@ -30,6 +30,9 @@ import WacModel.Ast
    D8  in `result<…>` the hole `_` may stand for an absent type in either position
        (`result<_>`, `result<_, _>`, `result<t, _>` besides the four printed forms): the
        repository's own test suite writes `result<_>` (tests/resolution/fail/missing-ok-result-type.wac).
+   D9  an implementation limit: `(`, `<` and `{` may be nested at most `MAX_NESTING_DEPTH` deep
+       (the constant of lexer.rs, read by the translator; `verdictWith`).  A recursive-descent
+       front end cannot accept unbounded nesting without overflowing its stack (C14).
   Everything else — in particular `'->' results` needing a result type, keywords not being
   identifiers, non-empty record/variant/enum/flags/tuple bodies — is taken literally.
 
@@ -397,9 +400,11 @@ def gType : Nat → SP Ty
     (do t "option"; t "<"; let ty ← gType fuel; t ">"; pure (.Option ty z)) <+>
     -- result ::= 'result' | 'result' '<' type '>' | 'result' '<' '_' ',' type '>' | 'result' '<' type ',' type '>'
     -- (D8: `_` may stand for an absent type in either position: 'result' '<' (type|'_') (',' (type|'_'))? '>')
+    -- (written left-factored, so that nested results are recognised in linear time)
     (do t "result"; pure (.Result none none z)) <+>
-    (do t "result"; t "<"; let ok ← gTypeOrHole fuel; t ">"; pure (.Result ok none z)) <+>
-    (do t "result"; t "<"; let ok ← gTypeOrHole fuel; t ","; let err ← gTypeOrHole fuel; t ">"; pure (.Result ok err z)) <+>
+    (do t "result"; t "<"; let ok ← gTypeOrHole fuel
+        let err ← opt (do t ","; gTypeOrHole fuel)
+        t ">"; pure (.Result ok (err.getD none) z)) <+>
     -- borrow ::= 'borrow' '<' id '>'   (D2)
     (do t "borrow"; t "<"; let id ← gId; t ">"; pure (.Borrow id z)) <+>
     (do let id ← gId; pure (.Ident id))
@@ -631,14 +636,29 @@ inductive Verdict where
   | ambiguous (n : Nat)
 deriving Inhabited
 
-def verdict (src : Str) : Verdict :=
+/-- D9: does the number of open `(`, `<`, `{` stay within `limit` along the token sequence? -/
+def nestingWithin (limit : Nat) : Nat → List STok → Bool
+  | _, [] => true
+  | d, tok :: r =>
+    if tok.kind == .lit && (tok.text == ['('] || tok.text == ['<'] || tok.text == ['{']) then
+      d + 1 ≤ limit && nestingWithin limit (d + 1) r
+    else if tok.kind == .lit && (tok.text == [')'] || tok.text == ['>'] || tok.text == ['}']) then
+      nestingWithin limit (d - 1) r
+    else nestingWithin limit d r
+
+/-- the verdict, given the implementation's bracket-nesting limit (`none`: unlimited) -/
+def verdictWith (limit : Option Nat) (src : Str) : Verdict :=
   if src.any forbiddenChar then .reject "forbidden code point" else
   match tokens (src.length + 1) src with
   | none => .reject "lexical"
   | some ts =>
+    if !(match limit with | some l => nestingWithin l 0 ts | none => true) then .reject "nesting limit" else
     match derivations ts with
     | [] => .reject "syntax"
     | [d] => .accept d
     | ds => .ambiguous ds.length
+
+/-- the verdict of the documented language proper -/
+def verdict (src : Str) : Verdict := verdictWith none src
 
 end Wac.Spec.Grammar
